@@ -82,6 +82,8 @@ func checkC09(rep *Report, pool *DriverPool, c *WCase) {
 	datas := c.datas()
 	o1 := RunW(c.Set, false, datas, c.Ops, 0)
 	o2 := RunW(c.Set, false, datas, c.Ops2, 0)
+	compareModel(rep, pool, c, c.Set, datas, c.Ops, 0, o1)
+	compareModel(rep, pool, c, c.Set, datas, c.Ops2, 0, o2)
 	key := fmt.Sprintf("%s|%s|%d|%d|%d", c.Set, c.Datas[0].Gen, c.Datas[0].N, len(c.Ops), len(c.Ops2))
 	if len(c.Ops) == len(c.Ops2) && opsString(c.Ops) == opsString(c.Ops2) {
 		key = ""
@@ -143,6 +145,7 @@ func checkC12(rep *Report, pool *DriverPool, c *WCase) {
 	datas := c.datas()
 	o1 := RunW(c.Set, false, datas, c.Ops, c.FailAt)
 	o2 := RunW(c.Set, false, datas, c.Ops2, 0)
+	compareModel(rep, pool, c, c.Set, datas, c.Ops, c.FailAt, o1)
 	rep.Eval(fmt.Sprintf("%s|%s|%d|%s|%d|%d|%d", c.Set, c.Datas[0].Gen, c.Datas[0].N, c.Datas[1].Gen, c.Datas[1].N, len(c.Ops), c.FailAt), c.sample())
 	rep.Count("setting:" + c.Set.String())
 	hasClose, hasFlush := false, false
@@ -185,7 +188,10 @@ func genC14(r *Rng, i int) *WCase {
 
 // checkC14 runs the fault-free history, then re-runs it failing the destination at call k for
 // every k (or a sample), each followed by further operations.
+var c14pool *DriverPool
+
 func checkC14(rep *Report, pool *DriverPool, c *WCase, r *Rng, maxK int) {
+	c14pool = pool
 	datas := c.datas()
 	base := RunW(c.Set, false, datas, c.Ops, 0)
 	if base.Panic != "" {
@@ -220,6 +226,7 @@ func checkC14(rep *Report, pool *DriverPool, c *WCase, r *Rng, maxK int) {
 
 func checkC14One(rep *Report, c *WCase, datas [][]byte) {
 	obs := RunW(c.Set, false, datas, c.Ops, c.FailAt)
+	compareModel(rep, c14pool, c, c.Set, datas, c.Ops, c.FailAt, obs)
 	rep.Eval(fmt.Sprintf("%s|%s|%d|%d|k%d", c.Set, c.Datas[0].Gen, c.Datas[0].N, len(c.Ops), c.FailAt), c.sample())
 	if obs.Panic != "" {
 		rep.Violate("panic-after-failure", classifyC14(c), obs.Panic, c)
@@ -283,6 +290,7 @@ func checkC16(rep *Report, pool *DriverPool, c *WCase) {
 	datas := c.datas()
 	f := RunW(c.Set, false, datas, c.Ops, 0)
 	s := RunW(c.Set, true, datas, c.Ops, 0)
+	compareModel(rep, pool, c, c.Set, datas, c.Ops, 0, f)
 	rep.Eval(fmt.Sprintf("%s|%s", c.Set, opsString(c.Ops)), c.sample())
 	if f.Panic != "" {
 		rep.Violate("panic", "", f.Panic, c)
